@@ -91,3 +91,9 @@ $T equivalent - "without the continue the directory is created again (idempotent
 $T equivalent - "made_progress after Runner::start: a command is running, so falling through to the wait is equivalent" m01091 m01092
 $T control C06,C05 "stuck after a failure: the loop spins for ever (continue) or falls into the internal-error panic (break removed)" m01109 m01110
 $T out-of-scope - "last-line display callback / trace thread ids" m01112 m01114 m01115 m01116 m01117
+$T out-of-scope - "which end of the ready / pool / display queue is used: scheduling and display order are not part of C01/C04/C19 (rules relaxed after the sweep)" m00930 m00979 m00984 m00992 m00487
+$T out-of-scope - "the last output line is not remembered for display: nothing to render" m00490
+$T out-of-scope - "plural wording of the summary" m00642
+$T equivalent - "the cut threshold moves by one; the cut stays in range" m00734 m00740
+$T out-of-scope - "the caret line of the diagnostic is dropped; file and line are still named" m00749
+$T out-of-scope - "trace output" m01118
